@@ -84,6 +84,7 @@ def make_exc(name, *args):
 
 
 class ExcClass:
+    ALWAYS_TRUE = True        # a Python object of this kind is truthy (no __bool__ / __len__)
     def __init__(self, name):
         self.name = name
 
@@ -349,8 +350,22 @@ class Exec:
                 r = self.hooks['truth'](self, v)
                 if r is not None:
                     return r
+            if isinstance(v, Obj) and v.cls is not None and (self.repo.find_method(v.cls, '__bool__') or self.repo.find_method(v.cls, '__len__')):
+                raise Unsupported(f'truthiness of an instance of {v.clsname} (defines __bool__ / __len__)')
             return True
-        return bool(v)
+        if getattr(type(v), 'ALWAYS_TRUE', False):
+            return True
+        if hasattr(v, 'sym_len'):
+            # a container of unknown size (abstract collection, symbolic map, buffer): true iff non-empty
+            n = v.sym_len(self)
+            return self.truth(n > 0) if isinstance(n, Sym) else n > 0
+        if v is None or isinstance(v, (bool, int, float, str, bytes, bytearray, list, tuple, dict, set, frozenset, range)):
+            return bool(v)
+        import datetime as _dt
+        if isinstance(v, (_dt.date, _dt.time, _dt.datetime, _dt.timedelta)):
+            return bool(v)
+        # anything else is a value of the checker's own making: its Python truth value means nothing
+        raise Unsupported(f'truthiness of {type(v).__name__} {v!r}')
 
     # ---- running ---------------------------------------------------------------
     def call_function(self, info, args, kwargs=None, bound=None):
@@ -873,6 +888,13 @@ class Exec:
         a = self.concretize(a)
         b = self.concretize(b)
         f = self.BINOPS[type(op)]
+        if isinstance(op, ast.BitOr):
+            # X | Y on classes (PEP 604 union, as in isinstance(v, bytes | bytearray)): the tuple of alternatives
+            def is_type(x):
+                return isinstance(x, (ClassVal, ExcClass)) or (isinstance(x, Builtin) and x.name in ('int', 'float', 'str', 'bytes', 'bytearray', 'bool', 'list', 'tuple', 'dict', 'set', 'frozenset')) \
+                    or x is None or (isinstance(x, tuple) and x and all(is_type(y) for y in x))
+            if is_type(a) and is_type(b) and not (a is None and b is None):
+                return (a if isinstance(a, tuple) else (a,)) + (b if isinstance(b, tuple) else (b,))
         if isinstance(op, ast.Add) and (isinstance(a, (str, SStr)) and isinstance(b, (str, SStr))):
             return sstr_concat(a, b)
         if isinstance(op, (ast.Add,)) and (isinstance(a, (SBytes, bytes, bytearray)) and isinstance(b, (SBytes, bytes, bytearray))):
@@ -1056,6 +1078,12 @@ class Exec:
             return a is b
         if isinstance(a, Obj) or isinstance(b, Obj):
             return a is b
+        if a is b:
+            return True
+        for x in (a, b):
+            if type(x).__name__ in ('AbsSet', 'SymMap', 'ABuf', 'Combined', 'ChunkSeq', 'App', 'TableGet', 'HavocState', 'TextOf', 'OpaqueBytes', 'SortedKeys', 'MapItems'):
+                # an abstract value without an equality theory of its own: Python's identity comparison would be a guess
+                raise Unsupported(f'== on abstract value {x!r}')
         try:
             return a == b
         except Exception:
@@ -1305,9 +1333,16 @@ class Exec:
         from .symmap import SortedKeys, Combined
         if isinstance(first, SortedKeys):
             return self.combined_comprehension(first.map, elt, gens, sub)
-        from .symmap import ChunkSeq
+        from .symmap import ChunkSeq, SortedItems
         if isinstance(first, ChunkSeq):
             return self.chunk_comprehension(first, elt, gens, sub)
+        if isinstance(first, SortedItems):
+            # for k, chunk in sorted(M.items()): the chunks in key order
+            t = gens[0].target
+            if not (isinstance(t, ast.Tuple) and len(t.elts) == 2 and all(isinstance(x, ast.Name) for x in t.elts)) or gens[0].ifs:
+                raise Unsupported('comprehension over sorted(M.items()) of an unmodelled shape')
+            g0 = ast.comprehension(target=ast.Name(id=t.elts[1].id, ctx=ast.Store()), iter=gens[0].iter, ifs=[], is_async=0)
+            return self.chunk_comprehension(ChunkSeq(first.map.snapshot(), 'asc', False), elt, [g0] + list(gens[1:]), sub)
 
         def rec(i):
             if i == len(gens):
@@ -1558,12 +1593,14 @@ class Exec:
 
 
 class SuperProxy:
+    ALWAYS_TRUE = True        # a Python object of this kind is truthy (no __bool__ / __len__)
     def __init__(self, obj, cls):
         self.obj = obj
         self.cls = cls
 
 
 class Coroutine:
+    ALWAYS_TRUE = True        # a Python object of this kind is truthy (no __bool__ / __len__)
     def __init__(self, info, args, kwargs, bound):
         self.info = info
         self.args = args
